@@ -6,7 +6,7 @@ PROP = {
     "assumptions": ["forked cosmos-sdk bank keeper (subUnlockedCoins, DelegateCoins, SpendableCoins, locked-coins getter chain) is modelled in Hold/Locked.v and trusted; the harness exercises it",
                     "higher-level routes reach balances only through the bank primitives of the model; that reduction is checked by the route matrix, not proved"],
     "level_text": "Kernel-checked invariant over ALL histories of bank primitives (send, multi-send with one or many inputs, delegation with the vesting bypass, undelegation, burn, mint), hold placement/release and vesting-lock changes: 0 <= hold <= balance for every account and denom; only AddHold/ReleaseHold change holds; spendable = max 0 (balance - hold - unvested); exact success conditions of send and delegate. Tied to the code by the route matrix and random histories run against the real bank, hold, staking, gov, marker and exchange code and evaluated against the model inside Coq on every run.",
-    "level_note": "Trusted: Coq kernel + vm_compute; hand transcription of the forked bank's locked-coins logic and the hold keeper (Hold/Locked.v); harness projection. The theorem covers the bank primitives; that every module route goes through them is exercised (15 routes), not proved. Fee payment is exercised as the bank call the fee decorator makes (antewrapper.DeductFees), not as a signed transaction.",
+    "level_note": "Trusted: Coq kernel + vm_compute; hand transcription of the forked bank's locked-coins logic and the hold keeper (Hold/Locked.v); harness projection. The theorem covers the bank primitives; that every module route goes through them is exercised (17 routes), not proved. Fee payment is exercised as the bank call the fee decorator makes (antewrapper.DeductFees), not as a signed transaction.",
     "technique": "Coq invariant proof by induction over fold_left step + differential correspondence (route matrix and histories) evaluated in Coq",
 }
 
